@@ -85,6 +85,8 @@ class Env:
         self.current_target = None
         self.touched = {}
         self.trusted = []           # human readable list of assumed contracts
+        self.ref_attr_hooks = {}    # (ref class, attr) -> fn(interp, ref) -> value
+        self.ref_methods = {}       # (ref class, method) -> real function interpreted with self = the ref
         self.object_hooks = []      # callables real_object -> schema name or None (e.g. loggers)
         self.site_hooks = {}        # (caller qualname, callee name) -> spec fn over the caller's locals
         self.abstract_regex = False  # regex membership as uninterpreted predicates (+ lemmas)
